@@ -241,8 +241,8 @@ def SqliteVerdict.allowed : SqliteVerdict → Bool
 /-- `classify` of cli/sqlite3.py -/
 def sqliteClassify (tokens : List String) : SqliteVerdict :=
   if tokens.any (fun t => Generated.Sql.sqliteHelp.contains t) then .helpVersion
-  else if (optionWords 0 (tokens.drop 1)).contains "-readonly" || (optionWords 0 (tokens.drop 1)).contains "-safe" then .readonlyMode
   else if (optionWords 0 (tokens.drop 1)).contains "-init" then .initScript
+  else if (optionWords 0 (tokens.drop 1)).contains "-readonly" || (optionWords 0 (tokens.drop 1)).contains "-safe" then .readonlyMode
   else
     let parts := sqlArgs false 0 (tokens.drop 1)
     if parts.isEmpty then .interactive
